@@ -321,7 +321,7 @@ def _run_transfers(case, world, sc, net, b, ckw, viol, info, scratch):
             for c in co_clients:
                 await c.quit()
             await asyncio.sleep(1)
-            await asyncio.wait_for(server.close(), 1e4)
+            await common.close_server(server)
 
         world.run(main())
         gc.collect()
@@ -424,7 +424,7 @@ def run_reset_case(case):
                     viol.append({"clause": "completion-reply-for-truncated-upload", "subject": verb + (":midcmd" if case.get("midcmd") else ""), "detail": f"{how}; server replied {replies} but stored {None if got is None else len(got)} of {len(want)} bytes"})
             peer.close()
             await asyncio.sleep(1)
-            await asyncio.wait_for(server.close(), 1e4)
+            await common.close_server(server)
 
         world.run(main())
         gc.collect()
@@ -510,7 +510,7 @@ def run_late_case(case):
                     viol.append({"clause": "stored-bytes-differ-at-completion-reply", "subject": f"{verb.lower()}:commands-before-data-connection", "detail": f"CWD /d, {verb} f (150), then {case['between']} (answered {info['between']}), then the data connection and {len(up)} bytes: reply {final}, but the files that differ from what this upload should have produced are {changed}"})
             peer.close()
             await asyncio.sleep(1)
-            await asyncio.wait_for(server.close(), 1e4)
+            await common.close_server(server)
 
         world.run(main())
         gc.collect()
